@@ -10,6 +10,12 @@ import traceback
 import warnings
 
 import multiprocessing
+import zlib
+
+
+def stable_hash(x):
+    """hash() of strings changes per process (PYTHONHASHSEED); case generation must not"""
+    return zlib.crc32(repr(x).encode())
 import multiprocessing.pool
 
 JOBS = {}
